@@ -179,7 +179,7 @@ Qed.
 
 (* the bytes of a valid multi-byte sequence *)
 Lemma utf8_len_bytes s n : utf8_len s = n -> n <> 0%nat ->
-  s = firstn n s ++ skipn n s /\ Forall (fun c => c <> 34 /\ c <> 92) (firstn n s) /\ (n <= 4)%nat.
+  s = firstn n s ++ skipn n s /\ Forall (fun c => c <> 34 /\ c <> 92 /\ c < 256) (firstn n s) /\ (n <= 4)%nat.
 Proof.
   intros E NZ. split; [symmetry; apply firstn_skipn|].
   unfold utf8_len in E. destruct s as [|b0 r]; [congruence|].
@@ -226,7 +226,7 @@ Proof.
         replace ((50 =? 50) && (48 =? 48) && (50 =? 50) && ((c - 112 =? 56) || (c - 112 =? 57))) with true by lia.
         rewrite IH by exact V. cbn [pre app]. replace (c - 112 + 112) with c by lia. reflexivity.
       * destruct (utf8_len_bytes _ _ L ltac:(lia)) as [Es [Fb _]].
-        rewrite <- app_assoc, unesc_copy by exact Fb. rewrite IH by exact V. cbn [pre]. rewrite <- Es. reflexivity.
+        rewrite <- app_assoc, unesc_copy by (eapply Forall_impl; [|exact Fb]; cbv beta; tauto). rewrite IH by exact V. cbn [pre]. rewrite <- Es. reflexivity.
 Qed.
 
 Lemma jstring_app s rest : jstring s ++ rest = 34 :: esc (length s) s ++ 34 :: rest.
@@ -613,6 +613,67 @@ Proof.
         by (auto; unfold jstring; cbn [app]; rewrite <- !app_assoc; reflexivity).
       rewrite parse_member_ok by (auto; try lia; destruct m; reflexivity).
       rewrite jparse_mtail_ok by (auto; lia). reflexivity.
+Qed.
+
+(* the printed text consists of bytes (when the strings are valid UTF-8) *)
+Lemma esc_ascii_bytes b : b < 128 -> bytes_lt (esc_ascii b).
+Proof.
+  intros H. unfold esc_ascii, hexd.
+  repeat match goal with |- context [if ?c then _ else _] => destruct c eqn:? end; repeat constructor; try lia.
+Qed.
+
+Lemma esc_bytes f : forall s, utf8_ok f s = true -> bytes_lt (esc f s).
+Proof.
+  induction f as [|f IH]; intros s V; [constructor|].
+  destruct s as [|b r]; [constructor|]. cbn [utf8_ok esc] in *.
+  destruct (b <? 128) eqn:A.
+  - apply Forall_app. split; [apply esc_ascii_bytes; lia | apply IH; exact V].
+  - destruct (utf8_len (b :: r)) as [|n'] eqn:L; [discriminate|].
+    destruct (lsps (b :: r)) as [c|] eqn:P.
+    + destruct (lsps_some _ _ P) as [r3 [Es [Dc L3]]]. rewrite L3 in L. inversion L; subst n'.
+      apply Forall_app. split; [repeat constructor; lia|]. apply IH. rewrite Es in *. exact V.
+    + destruct (utf8_len_bytes _ _ L ltac:(lia)) as [_ [Fb _]].
+      apply Forall_app. split; [eapply Forall_impl; [|exact Fb]; cbv beta; tauto | apply IH; exact V].
+Qed.
+
+Lemma jstring_bytes s : utf8_valid s = true -> bytes_lt (jstring s).
+Proof.
+  intros V. unfold jstring. constructor; [lia|]. apply Forall_app. split; [apply esc_bytes; exact V | repeat constructor; lia].
+Qed.
+
+Lemma dec_nat_bytes n : bytes_lt (dec_nat n).
+Proof.
+  unfold dec_nat. destruct (n =? 0); [repeat constructor; lia|].
+  pose proof (be_digits_lt 10 n ltac:(lia)) as L. unfold digits_lt in L. unfold bytes_lt.
+  rewrite Forall_forall in *. intros c Hc. apply in_map_iff in Hc. destruct Hc as [d [<- Hd]]. specialize (L d Hd). lia.
+Qed.
+
+Lemma dec_Z_bytes z : bytes_lt (dec_Z z).
+Proof. destruct z; cbn [dec_Z]; [repeat constructor; lia | apply dec_nat_bytes | constructor; [lia | apply dec_nat_bytes]]. Qed.
+
+Lemma concat_bytes (ls : list bstr) : Forall bytes_lt ls -> bytes_lt (concat ls).
+Proof. induction 1; cbn [concat]; [constructor | apply Forall_app; split; assumption]. Qed.
+
+Theorem jprint_bytes j : jok j = true -> bytes_lt (jprint j).
+Proof.
+  induction j as [| b | z | s | l IH | m IH] using jv_ind'; intros OK; cbn [jprint jok] in *.
+  - repeat constructor; lia.
+  - destruct b; repeat constructor; lia.
+  - apply dec_Z_bytes.
+  - apply jstring_bytes. exact OK.
+  - constructor; [lia|]. destruct l as [|x l]; [repeat constructor; lia|].
+    inversion IH as [|? ? Hx Hl]; subst. cbn [forallb] in OK. apply andb_true_iff in OK. destruct OK as [Ox Ol].
+    apply Forall_app. split; [apply Hx; exact Ox|]. apply Forall_app. split; [|repeat constructor; lia].
+    apply concat_bytes. rewrite forallb_forall in Ol. rewrite Forall_forall in Hl. apply Forall_forall. intros y Hy.
+    apply in_map_iff in Hy. destruct Hy as [z [<- Hz]]. constructor; [lia | apply Hl; [exact Hz | apply Ol; exact Hz]].
+  - constructor; [lia|]. destruct m as [|[k v] m]; [repeat constructor; lia|].
+    inversion IH as [|? ? Hx Hl]; subst. cbn [forallb fst snd] in *. rewrite !andb_true_iff in OK. destruct OK as [[Vk Ov] Om].
+    assert (KV : forall k v, utf8_valid k = true -> bytes_lt (jprint v) -> bytes_lt (jstring k ++ 58 :: jprint v)).
+    { intros k0 v0 Vk0 Bv. apply Forall_app. split; [apply jstring_bytes; exact Vk0 | constructor; [lia | exact Bv]]. }
+    apply Forall_app. split; [apply KV; [exact Vk | apply Hx; exact Ov]|]. apply Forall_app. split; [|repeat constructor; lia].
+    apply concat_bytes. rewrite forallb_forall in Om. rewrite Forall_forall in Hl. apply Forall_forall. intros y Hy.
+    apply in_map_iff in Hy. destruct Hy as [kv [<- Hkv]]. specialize (Om kv Hkv). rewrite andb_true_iff in Om.
+    constructor; [lia|]. apply KV; [tauto | apply Hl; [exact Hkv | tauto]].
 Qed.
 
 (* the printer is injective (and prefix-free) on values whose strings are valid UTF-8 *)
